@@ -65,14 +65,14 @@ def benign():
     if os.path.exists(rp):
         res = json.load(open(rp))['rules_reporting_each_benign_change']
     rows = ['| benign change | property | what it does | first run | now | what was done |', '|---|---|---|---|---|---|']
-    names = sorted(n for n in os.listdir(os.path.join(ROOT, 'benign')) if os.path.isdir(os.path.join(ROOT, 'benign', n)))
+    names = sorted((n for n in os.listdir(os.path.join(ROOT, 'benign')) if os.path.isdir(os.path.join(ROOT, 'benign', n))), key=lambda x: (json.load(open(os.path.join(ROOT, 'benign', x, 'meta.json'))).get('round', 1), x))
     nf = 0
     for n in names:
         m = json.load(open(os.path.join(ROOT, 'benign', n, 'meta.json')))
         if not m.get('first_run', 'silent').startswith('silent'):
             nf += 1
         now = res.get(n)
-        rows.append('| `%s` | %s | %s | %s | %s | %s |' % (n, m['property'], m.get('what', '').replace('|', '/'), m.get('first_run', '?').replace('|', '/'),
+        rows.append('| `%s` (round %s) | %s | %s | %s | %s | %s |' % (n, m.get('round', 1), m['property'], m.get('what', '').replace('|', '/'), m.get('first_run', '?').replace('|', '/'),
                     'silent' if now == [] else ('?' if now is None else '**alarm**: ' + ', '.join(now)), m.get('action', '').replace('|', '/')))
     rows.append('')
     loud = [n for n in names if res.get(n)]
